@@ -256,7 +256,7 @@ func TestC17_P_ConcurrentReads(t *testing.T) {
 				fc = genFileDAG(t, 20, 300)
 			} else {
 				// hand-assembled: may lack BlockSizes / FileSize, so readers have to measure children by opening them
-				fc = genHandFileDAG(t, true)
+				fc = genHandFileDAGOpt(t, handOpts{OldStyle: true, SpareBlockSize: true, LyingFileSize: true})
 				if len(fc.Data) == 0 {
 					fc = genFileDAG(t, 20, 100)
 				}
